@@ -36,7 +36,7 @@ var knownSchemaKeywords = map[string]bool{"$schema": true, "$id": true, "$ref": 
 	"type": true, "enum": true, "items": true, "required": true, "default": true, "examples": true, "format": true, "title": true, "description": true,
 	"const": true, "if": true, "then": true, "else": true, "allOf": true, "anyOf": true, "oneOf": true, "not": true, "pattern": true,
 	"minLength": true, "maxLength": true, "minItems": true, "maxItems": true, "minimum": true, "maximum": true, "minProperties": true, "maxProperties": true,
-	"patternProperties": true, "$comment": true, "deprecated": true, "readOnly": true, "writeOnly": true}
+	"patternProperties": true, "propertyNames": true, "$comment": true, "deprecated": true, "readOnly": true, "writeOnly": true}
 
 func (s *schemaDoc) ok(sch map[string]any, v any) bool {
 	var errs []string
@@ -124,6 +124,13 @@ func (s *schemaDoc) validateApplicators(sch map[string]any, v any, path string, 
 		}
 	}
 	if m, ok := v.(map[string]any); ok {
+		if pn, ok := sch["propertyNames"].(map[string]any); ok {
+			for _, k := range sortedKeys(m) {
+				if !s.ok(pn, k) {
+					*errs = append(*errs, fmt.Sprintf("%s: key %q is not an allowed property name", path, k))
+				}
+			}
+		}
 		if n, ok := toFloat(sch["minProperties"]); ok && float64(len(m)) < n {
 			*errs = append(*errs, fmt.Sprintf("%s: fewer than minProperties", path))
 		}
